@@ -261,6 +261,98 @@ func main() {
 			c.NonTrivial()
 		}
 	})
+	// size: vertex lists far longer than anything above (a summation that is split, blocked or parallelised above
+	// some length must still be the sum of all its segments)
+	longNs := []int{33, 64, 65, 100, 128, 129, 257, 500, 1025}
+	r.Explore("long-lines", fmt.Sprintf("3 families (zig-zag along a parallel, meridian staircase, closed polygonal circle) x %d lengths %v x 6 holders (line, ring, multi-line-string, polygon, multi-polygon, nested collection): Length / LengthHaversine = the sum of all segment distances (own great-circle formula for the haversine one), Area of the circle = the sum of its fan of triangles within 1e-9, PointAtDistanceAlongLine at 9 fractions lands on the right segment", len(longNs), longNs), mc.Opts{MaxDev: -1}, func(c *mc.Ctx) {
+		fam := c.Choose(3)
+		n := longNs[c.Choose(len(longNs))]
+		ls := make(orb.LineString, n)
+		for i := range ls {
+			t := float64(i)
+			switch fam {
+			case 0:
+				ls[i] = orb.Point{-20 + 0.03*t, 35 + 0.02*float64(i%2)}
+			case 1:
+				ls[i] = orb.Point{12 + 0.01*float64((i/2)%3), -30 + 0.025*t}
+			default:
+				a := 2 * math.Pi * t / float64(n-1)
+				ls[i] = orb.Point{100 + 0.5*math.Cos(a), 10 + 0.5*math.Sin(a)}
+			}
+		}
+		if fam == 2 {
+			ls[n-1] = ls[0]
+		}
+		sum := func(f func(a, b orb.Point) float64, l orb.LineString) float64 {
+			s := 0.0
+			for i := 0; i+1 < len(l); i++ {
+				s += f(l[i], l[i+1])
+			}
+			return s
+		}
+		sl, sg := sum(geo.Distance, ls), sum(gc, ls)
+		outer := orb.Ring{{-30, -40}, {110, -40}, {110, 50}, {-30, 50}, {-30, -40}}
+		ol, og := sum(geo.Distance, orb.LineString(outer)), sum(gc, orb.LineString(outer))
+		for _, lc := range []struct {
+			what   string
+			g      orb.Geometry
+			wl, wg float64
+		}{
+			{"line string", ls.Clone(), sl, sg},
+			{"ring", orb.Ring(ls.Clone()), sl, sg},
+			{"multi-line-string", orb.MultiLineString{orb.LineString(outer), ls.Clone()}, sl + ol, sg + og},
+			{"polygon", orb.Polygon{outer, orb.Ring(ls.Clone())}, sl + ol, sg + og},
+			{"multi-polygon", orb.MultiPolygon{{outer}, {orb.Ring(ls.Clone()), orb.Ring(ls.Clone())}}, 2*sl + ol, 2*sg + og},
+			{"collection", orb.Collection{orb.Point{1, 1}, orb.Collection{ls.Clone()}, orb.Polygon{orb.Ring(ls.Clone())}}, 2 * sl, 2 * sg},
+		} {
+			if l := geo.Length(lc.g); rel(l, lc.wl) > 1e-11 {
+				c.Failf("length-sum", "Length(%s of %d vertices, family %d) = %v, the sum of segment distances is %v", lc.what, n, fam, l, lc.wl)
+			}
+			if l := geo.LengthHaversine(lc.g); rel(l, lc.wg) > 1e-9 {
+				c.Failf("length-sum", "LengthHaversine(%s of %d vertices, family %d) = %v, the sum of great-circle segment lengths is %v", lc.what, n, fam, l, lc.wg)
+			}
+		}
+		// along the line: at 9 fractions of the length, the point lies on the segment that the running sum says
+		seg := make([]float64, n-1)
+		total := 0.0
+		for i := range seg {
+			seg[i] = geo.DistanceHaversine(ls[i], ls[i+1])
+			total += seg[i]
+		}
+		for _, f := range []float64{0.01, 0.13, 0.25, 0.49, 0.5, 0.51, 0.75, 0.9, 0.995} {
+			d := f * total
+			q, _ := geo.PointAtDistanceAlongLine(ls.Clone(), d)
+			acc, k := 0.0, n-2
+			for i := range seg {
+				if d-acc < seg[i] {
+					k = i
+					break
+				}
+				acc += seg[i]
+			}
+			if along := acc + gc(ls[k], q); math.Abs(along-d) > 1e-3+1e-9*d {
+				c.Failf("along-line", "PointAtDistanceAlongLine(%d vertices, family %d, %v) = %v lies %v m along the line (segment %d)", n, fam, d, q, along, k)
+			}
+			if off := gc(ls[k], q) + gc(q, ls[k+1]) - gc(ls[k], ls[k+1]); math.Abs(off) > 1e-3 {
+				c.Failf("along-line", "PointAtDistanceAlongLine(%d vertices, family %d, %v) = %v is not on segment %d (detour %v m)", n, fam, d, q, k, off)
+			}
+		}
+		if fam == 2 {
+			// the polygonal circle as a fan of triangles around its first vertex: areas add up
+			ring := orb.Ring(ls.Clone())
+			fan := 0.0
+			for i := 1; i+2 < n; i++ {
+				fan += geo.SignedArea(orb.Ring{ring[0], ring[i], ring[i+1], ring[0]})
+			}
+			if a := geo.SignedArea(ring); rel(a, fan) > 1e-9 || a <= 0 {
+				c.Failf("area-additive", "SignedArea(circle of %d vertices) = %v, its fan of triangles sums to %v", n, a, fan)
+			}
+			if a, u := geo.Area(ring), geo.Area(orb.Polygon{ring}); a != u || rel(a, math.Abs(fan)) > 1e-9 {
+				c.Failf("area-additive", "Area(circle of %d vertices) = %v as a ring, %v as a polygon, fan %v", n, a, u, fan)
+			}
+		}
+		c.NonTrivial()
+	})
 	sizes := []float64{0.001, 0.5, 1, 3}
 	r.Explore("box-area", "boxes of 4 sizes anchored at every lattice point (clipped to the sphere): Area(bound) = R^2 x width x (sin top - sin bottom); ring / polygon / bound spellings agree", mc.Opts{MaxDev: -1, Split: 1}, func(c *mc.Ctx) {
 		p := pts[c.Choose(len(pts))]
